@@ -347,6 +347,9 @@ def getitem(it, base, idx, frame, node):
     if isinstance(base, dict):
         if idx in base:
             return base[idx]
+        if isinstance(base, DefaultDict):
+            base[idx] = it.call(base.factory, [], {})
+            return base[idx]
         raise PyRaise(ExcVal(KeyError, (idx,)), origin="dict")
     if isinstance(base, Arr):
         if isinstance(idx, slice):
@@ -386,6 +389,18 @@ def getitem(it, base, idx, frame, node):
     raise Unsupported(f"subscript of {type(base).__name__}")
 
 
+class DefaultDict(dict):
+    """collections.defaultdict: a missing key is created by calling the factory"""
+
+    factory = None
+
+
+def _mk_defaultdict(it, factory=None, *a, **k):
+    d = DefaultDict()
+    d.factory = factory
+    return d
+
+
 def _register_view_index(it, base: Arr, i):
     """a view a[lo:hi] indexed at i touches position lo + i of the underlying array: an index term of that array"""
     lo = base.lo
@@ -423,6 +438,19 @@ def _checked_index(it, base: Arr, idx, frame, node):
     return i
 
 
+def _wrap_symbolic_bound(it, a: Arr, b):
+    """a symbolic slice bound that is provably negative counts from the end (a[-m:]); provably non-negative bounds are
+    taken as they are; anything else is outside the subset"""
+    if not is_sym(b) or it is None:
+        return b
+    p = it.path
+    if not p._feasible(b < 0):
+        return b
+    if not p._feasible(b >= 0):
+        return ops.scalar_bin("+", a.n, b)
+    raise Unsupported("slice bound of unknown sign")
+
+
 def arr_slice(it, a: Arr, s: slice):
     if s.step is not None:
         raise Unsupported("strided slice")
@@ -432,6 +460,7 @@ def arr_slice(it, a: Arr, s: slice):
         lo = ops.scalar_bin("+", a.n, lo)
     if isinstance(hi, int) and hi < 0:
         hi = ops.scalar_bin("+", a.n, hi)
+    lo, hi = _wrap_symbolic_bound(it, a, lo), _wrap_symbolic_bound(it, a, hi)
     n = ops.scalar_bin("-", hi, lo)
     if is_sym(n):
         ns = z3.simplify(n)
@@ -490,7 +519,20 @@ def setitem(it, base, idx, v, frame, node):
                         raise Unsupported("masked store with a different mask")
                     src = v.vec.f
                 elif isinstance(v, (Arr, Vec)):
-                    raise Unsupported("masked store of compressed array")
+                    # a[mask] = values: the k-th True position receives values[k]; numpy raises ValueError unless
+                    # len(values) == number of True entries (shape obligation)
+                    (widx,) = np_where(it, idx)
+                    wv = widx.vec()
+                    sv = _vec_of(v)
+                    cnt, ln = wv.n, sv.n
+                    same = (cnt == ln) if isinstance(cnt, int) and isinstance(ln, int) else ((z3.IntVal(cnt) if isinstance(cnt, int) else cnt) == (z3.IntVal(ln) if isinstance(ln, int) else ln))
+                    if isinstance(same, bool):
+                        if not same:
+                            raise PyRaise(ExcVal(ValueError, ("NumPy boolean array indexing assignment cannot assign input values to the output values",)), origin="masked-store")
+                    elif frame is not None and node is not None:
+                        it.path.prove(same, frame.site("index", node if isinstance(node, ast.Subscript) else next((c for c in ast.walk(node) if isinstance(c, ast.Subscript)), node)) + ":shape", kind="index", desc=f"`{ast.unparse(node)}`: as many values as True entries in the mask (no ValueError)", props=it.config.get("implicit_props"))
+                        it.path.assume(same)
+                    return scatter_store(it, base, wv, v, frame, node)
                 else:
                     src = lambda i, v=v: v
                 base.store_vec(Vec(base.n, lambda i: ops.zite(m.f(i), lift(_cast_for(cell, src(i)), kind), lift(old.f(i), kind)), kind))
@@ -1048,6 +1090,8 @@ def getattr_value(it, v, name):
     if isinstance(v, (str, Opaque)):
         if isinstance(v, Opaque) and v.tag == "flags":
             return NOATTR
+        if name == "format" and isinstance(v, str):
+            return PyFunc(lambda it_, *a, **k: str_format(it_, v, a, k), "str.format")
         if name in ("format", "join", "name", "upper", "lower"):
             return PyFunc(lambda it_, *a, **k: Opaque("str"), f"str.{name}")
         if isinstance(v, Opaque):
@@ -1178,7 +1222,17 @@ def list_attr(it, lc: ListCell, name):
 
         return PyFunc(append, "list.append")
     if name == "remove":
-        return PyFunc(lambda it_, x: (_ for _ in ()).throw(Unsupported("list.remove")), "list.remove")
+        def remove(it_, x):
+            # concrete list of objects: first element that IS x (identity; objects without __eq__ compare by identity)
+            if isinstance(lc.val, list) and all(not is_sym(e) and not isinstance(e, (int, float, str)) for e in lc.val):
+                for k_, e in enumerate(lc.val):
+                    if e is x:
+                        lc.val = lc.val[:k_] + lc.val[k_ + 1:]
+                        return None
+                raise PyRaise(ExcVal(ValueError, ("list.remove(x): x not in list",)), origin="list.remove")
+            raise Unsupported("list.remove")
+
+        return PyFunc(remove, "list.remove")
     return NOATTR
 
 
@@ -1480,6 +1534,7 @@ def install(it):
     reg("numpy.where", np_where)
     reg("numpy.atleast_2d", np_atleast_2d)
     reg("numpy.searchsorted", np_searchsorted)
+    reg("collections.defaultdict", _mk_defaultdict)
     reg("numpy.atleast_1d", lambda it_, a: a if isinstance(a, Arr) else Arr.new(Vec(1, lambda i: lift(a, "real"), "real")))
     reg("numpy.vstack", np_vstack)
     reg("numpy.hstack", np_hstack)
@@ -1786,6 +1841,106 @@ def np_where(it, cond, *rest):
         if getattr(mm, "neg_of", None) is m:
             p.assume(cnt + c2 == m.n)
     return (Arr.new(v),)
+
+
+def _format_kind(it, v):
+    """coarse run-time type of a value, as far as str.format cares"""
+    if v is None:
+        return "none"
+    if isinstance(v, bool):
+        return "int"
+    if isinstance(v, str) or (isinstance(v, Opaque) and v.tag.startswith("str")):
+        return "str"
+    if isinstance(v, int):
+        return "int"
+    if isinstance(v, float) or isinstance(v, (Inf, NaN)):
+        return "float"
+    if is_sym(v):
+        if z3.is_bool(v):
+            return "int"
+        if z3.is_int(v):
+            return "int"
+        return "float"
+    if isinstance(v, (Arr, Vec, Masked, Mat)):
+        return "array"
+    return "object"
+
+
+def str_format(it, fmt: str, args, kwargs):
+    """'...{:spec}...'.format(*args): the result is an opaque string; what is CHECKED is that every replacement field
+    exists and that its presentation type accepts the run-time type of its argument (ValueError 'Unknown format
+    code' / TypeError 'unsupported format string' otherwise) - obligations of kind `format`."""
+    import string
+
+    auto = [0]
+
+    def take(field):
+        if field == "" or field is None:
+            i = auto[0]
+            auto[0] += 1
+            return ("pos", i)
+        head = field.split(".")[0].split("[")[0]
+        if head.isdigit():
+            return ("pos", int(head))
+        return ("kw", head)
+
+    problems = []
+    try:
+        parsed = list(string.Formatter().parse(fmt))
+    except ValueError as e:
+        problems.append(f"malformed format string: {e}")
+        parsed = []
+    for _lit, field, spec, conv in parsed:
+        if field is None:
+            continue
+        kind_, key = take(field)
+        if kind_ == "pos":
+            if key >= len(args):
+                problems.append(f"replacement index {key} out of range for {len(args)} positional arguments")
+                continue
+            val = args[key]
+        else:
+            if key not in kwargs:
+                problems.append(f"missing keyword argument {key!r}")
+                continue
+            val = kwargs[key]
+        # nested fields inside the spec (width / precision) take further arguments, which must be integers
+        code_spec = spec or ""
+        for _l2, f2, _s2, _c2 in string.Formatter().parse(code_spec) if "{" in code_spec else []:
+            if f2 is None:
+                continue
+            k2, key2 = take(f2)
+            v2 = args[key2] if k2 == "pos" and key2 < len(args) else kwargs.get(key2) if k2 == "kw" else None
+            if _format_kind(it, v2) != "int":
+                problems.append(f"nested width/precision argument is {_format_kind(it, v2)}, not an integer")
+        import re as _re
+
+        flat = _re.sub(r"\{[^}]*\}", "", code_spec)
+        code = flat[-1] if flat and flat[-1].isalpha() else ""
+        if "." in field or "[" in field or conv:
+            continue  # attribute / item / conversion: type of the formatted object unknown to this model
+        k = _format_kind(it, val)
+        if k == "object":
+            if flat:
+                raise Unsupported(f"str.format of a {type(val).__name__} with format spec {spec!r}")
+            continue
+        ok = True
+        if code in ("d", "b", "o", "x", "X", "c", "n"):
+            ok = k == "int"
+        elif code in ("e", "E", "f", "F", "g", "G", "%"):
+            ok = k in ("int", "float")
+        elif code == "s":
+            ok = k == "str"
+        else:
+            ok = k in ("int", "float", "str") or (k in ("none", "array") and flat == "")
+        if not ok:
+            problems.append(f"presentation type {code or '(none)'!r} in {{:{spec}}} does not accept a value of type {k}")
+    frame, node = getattr(it, "cur_frame", None), getattr(it, "cur_node", None)
+    name = "str.format/" + fmt[:24].replace(" ", "_")
+    it.path.prove(not problems, name, kind="format", desc=f"{fmt!r}.format(...) raises nothing" + (": " + "; ".join(problems) if problems else ""), props=it.config.get("implicit_props"))
+    if problems:
+        raise PyRaise(ExcVal(ValueError, ("; ".join(problems),)), origin="str.format")
+    return Opaque("str")
 
 
 def np_searchsorted(it, a, v, side="left"):
